@@ -4,10 +4,14 @@ import Ohsl.Model.Solve
 namespace Ohsl
 
 /-- the scalar-class bundle every generic executor needs -/
-class Scalar (K : Type) extends Add K, Sub K, Mul K, Neg K, Zero K, One K, BEq K, ScalarExt K, Wire K
+class Scalar (K : Type) extends Add K, Sub K, Mul K, Neg K, Zero K, One K, BEq K, ScalarExt K, Wire K where
+  /-- the five matrix norms (`Matrix<f64>` only) as a read-only view inside histories -/
+  normsView : Option (Mat K → Float → String) := none
 
 instance : Scalar Rat := {}
-instance : Scalar Float := {}
+instance : Scalar Float := { normsView := some (fun m p =>
+  let w (r : Res Float) : String := match r with | .ok x => Wire.wr x | .error e => "!" ++ toString e
+  s!"{w (Mat.norm1 m)} {w (Mat.normInf m)} {w (Mat.normP m p)} {w (Mat.normFrob m)} {w (Mat.normMax m)}") }
 instance : Scalar (Cx Float) := {}
 
 def pMat {K} [Wire K] : P (Mat K) := do
